@@ -95,10 +95,11 @@ func GenSet(t *rapid.T, o SetGenOpts) SetSpec {
 					special = rapid.SampledFrom(o.Specials).Draw(t, "special")
 				}
 			}
-			if used[idx] && special != "dup" {
+			isDup := special == "dup" || special == "dupver"
+			if used[idx] && !isDup {
 				continue
 			}
-			if special == "dup" && !used[idx] {
+			if isDup && !used[idx] {
 				special = ""
 			}
 			used[idx] = true
